@@ -169,9 +169,19 @@ func c16r1(rc *core.RC) {
 			if !ok || (be.Op != token.LSS && be.Op != token.GTR) {
 				return true
 			}
-			_, xv := core.ObjOf(info, be.X).(*types.Var)
-			_, yv := core.ObjOf(info, be.Y).(*types.Var)
+			xo, xv := core.ObjOf(info, be.X).(*types.Var)
+			yo, yv := core.ObjOf(info, be.Y).(*types.Var)
 			if !xv || !yv {
+				return true
+			}
+			// both sides are locals of the accumulator's type (the function's first result)
+			local := func(v *types.Var) bool { return v.Pkg() != nil && v.Parent() != v.Pkg().Scope() && !v.IsField() }
+			fobj, _ := info.Defs[fd.Name].(*types.Func)
+			if fobj == nil || !local(xo) || !local(yo) {
+				return true
+			}
+			acc := fobj.Type().(*types.Signature).Results().At(0).Type()
+			if !types.Identical(xo.Type(), acc) || !types.Identical(yo.Type(), acc) {
 				return true
 			}
 			ast.Inspect(ifs.Body, func(m ast.Node) bool {
@@ -407,6 +417,41 @@ func c16r3(rc *core.RC) {
 			}
 			return true
 		})
+		// "-0" must not be followed by a digit: a test of the token's second byte against '0' with an error exit
+		lead := false
+		ast.Inspect(cc, func(n ast.Node) bool {
+			ifs, ok := n.(*ast.IfStmt)
+			if !ok {
+				return true
+			}
+			tests := false
+			ast.Inspect(ifs.Cond, func(m ast.Node) bool {
+				be, ok := m.(*ast.BinaryExpr)
+				if !ok || be.Op != token.EQL {
+					return true
+				}
+				ix, ok := core.Unparen(be.X).(*ast.IndexExpr)
+				if !ok {
+					return true
+				}
+				i, ok1 := core.ConstInt(info, ix.Index)
+				v, ok2 := core.ConstInt(info, be.Y)
+				if ok1 && ok2 && i == 1 && v == '0' {
+					tests = true
+				}
+				return true
+			})
+			if !tests {
+				return true
+			}
+			gb, _ := cf.BlockOf(ifs.Cond)
+			tb, _ := core.IfEdges(gb)
+			if tb != nil && cf.AllPathsReturnError(tb, nil) {
+				lead = true
+			}
+			return true
+		})
+		rc.Check(lead, fn+"/minus-zero-then-digit", cc.Pos(), "the '-' clause rejects a token whose first digit is 0 and that has more digits (-01 is not a JSON number; the positive case leaves at the first 0)")
 		shared := len(bs.Labels[bs.Of['-']]) > 1
 		if found && !shared {
 			rc.OK(fn+"/minus-needs-digit", cc.Pos(), "the '-' clause rejects a token without digits")
